@@ -511,7 +511,7 @@ def main():
         if r["kind"] == "field" and is_mut:
             continue                      # an object may rewrite its own fields in a mutator
         if r["kind"] == "arg":
-            if r["func"].startswith("_") or is_mut and r["func"] != "__init__":
+            if (r["func"].startswith("_") or is_mut) and r["func"] != "__init__":
                 continue                  # private helper: judged at its call sites (pass 2)
             if r["name"] in cfg["scalar_params"].get(f'{r["cls"]}.{r["func"]}', []):
                 continue
